@@ -189,6 +189,10 @@ func c11Run(run *ev.Run) {
 	}
 	var total seqx.Stats
 	stores := []string{"memory", "redis", "memory+cancel"}
+	defer debugLogTail(run, 7, func(s world.Spec) seqx.Model {
+		o := hOpts{Spec: s, Advance: true, GoodIdP: c11Answers("quick"), Prefix: loginPrefix, OnlyLive: true, MaxSessions: 3, Rollover: true}
+		return o.model(c11Monitor(run, s))
+	}, world.Spec{Store: "memory", Forward: true}, world.Spec{Store: "redis", Forward: true})
 	for _, store := range stores {
 		spec := world.Spec{Store: strings.TrimSuffix(store, "+cancel"), Forward: true}
 		o := hOpts{Spec: spec, Advance: true, GoodIdP: c11Answers(run.Tier), Prefix: loginPrefix, OnlyLive: true, MaxSessions: 3, Rollover: true}
